@@ -94,6 +94,8 @@ type Frame struct {
 	siteN    map[string]int
 	ranks    map[string]map[token.Pos]int
 	curCallClass string
+	siteInvs     []*Clause // call-site invariants of the call being encoded (see Contract.CallInvariants)
+	siteKey      string
 	// loop analysis
 	order    []*ssa.BasicBlock
 	backEdge map[[2]int]bool
@@ -114,6 +116,9 @@ type loopInfo struct {
 	body    map[int]bool
 	ordinal int
 	pos     token.Pos
+	// loop frame support: state at the header of an arbitrary iteration and the heap keys the body writes
+	headerState *State
+	written     map[string]bool
 }
 
 type Enc struct {
@@ -146,6 +151,8 @@ type Enc struct {
 	qbound          []string // names of the quantifier variables whose body is being evaluated
 	dryCache        []dryCached
 	recGhost        map[string]bool
+	trustedClauses  []string // "trusted ensures" clauses of the function under verification (not checked)
+	closedFacts     map[string]bool // universally closed side facts already emitted (bound names normalised)
 	axiomLines      []axiomLine
 	bseqSeen        map[string]bool
 	writeRef        string          // reference through which the heap write in progress goes ("" = unknown)
@@ -193,8 +200,15 @@ func (e *Enc) boundIn(t string) []string {
 }
 
 // assertTyping: side facts (typing of loaded values). Produced while a quantifier body is being evaluated they may mention
-// the bound variable; such a fact cannot be asserted at top level and is dropped (typing facts only ever help a proof).
+// the bound variable; the quantifier evaluation (eval.go, EQuant) closes such facts universally over its binders, so
+// they are emitted like any other fact.
 func (e *Enc) assertTyping(t string) {
+	e.assert(t)
+}
+
+// assertRange: integer-range typing facts. Under a quantifier they are dropped (they only ever help a proof, are rarely
+// needed there, and one copy per bound variable and leaf swamps the solvers).
+func (e *Enc) assertRange(t string) {
 	for _, q := range e.qbound {
 		if strings.Contains(t, q) {
 			return
@@ -411,13 +425,21 @@ func (e *Enc) loadLoc(st *State, l *Loc) *Val {
 		v.L = append(v.L, Sc{t, lf.Sort})
 		e.typeAssume(st, lf, t)
 		// values already in the entry heap are references that existed at entry
-		if lf.Sort == "Int" && lf.Path == "" && isRefLike(lf.T) {
+		if lf.Sort == "Int" && isRefLike(lf.T) {
 			a0 := e.declConst(sym(key+"@0"), sort)
+			// (only for containers that existed at entry: the fields of an object a callee allocates are described by
+			// the callee's ensures over the same, unhavocked, array)
 			if l.Kind == 'S' {
-				e.assertTyping("(<= (select (select " + a0 + " " + l.Ref + ") " + l.Idx + ") alloc@0)")
+				e.assertTyping("(=> (<= " + l.Ref + " alloc@0) (<= (select (select " + a0 + " " + l.Ref + ") " + l.Idx + ") alloc@0))")
 			} else {
-				e.assertTyping("(<= (select " + a0 + " " + l.Ref + ") alloc@0)")
+				e.assertTyping("(=> (<= " + l.Ref + " alloc@0) (<= (select " + a0 + " " + l.Ref + ") alloc@0))")
 			}
+		}
+	}
+	// slice headers read from memory are well-formed: len <= cap
+	for i := 0; i+1 < len(leaves); i++ {
+		if _, ok := leaves[i].T.Underlying().(*types.Slice); ok && strings.HasSuffix(leaves[i].Path, ".len") && strings.HasSuffix(leaves[i+1].Path, ".cap") {
+			e.assertRange("(<= " + v.L[i].T + " " + v.L[i+1].T + ")")
 		}
 	}
 	return v
@@ -431,19 +453,17 @@ func (e *Enc) typeAssume(st *State, lf Leaf, t string) {
 	switch u := lf.T.Underlying().(type) {
 	case *types.Basic:
 		if lo, hi, ok := intRange(u); ok {
-			e.assertTyping("(and (<= " + smtInt(lo) + " " + t + ") (<= " + t + " " + smtInt(hi) + "))")
+			e.assertRange("(and (<= " + smtInt(lo) + " " + t + ") (<= " + t + " " + smtInt(hi) + "))")
 		}
 	case *types.Pointer, *types.Map:
-		if lf.Path == "" {
-			e.assertTyping("(<= " + t + " " + st.alloc + ")")
-		}
+		e.assertTyping("(<= " + t + " " + st.alloc + ")")
 	case *types.Slice:
 		switch {
 		case strings.HasSuffix(lf.Path, ".base"):
 			e.assertTyping("(<= " + t + " " + st.alloc + ")")
 		case strings.HasSuffix(lf.Path, ".len"), strings.HasSuffix(lf.Path, ".cap"), strings.HasSuffix(lf.Path, ".off"):
-			// lengths, capacities and offsets are Go ints
-			e.assertTyping("(and (<= 0 " + t + ") (<= " + t + " 9223372036854775807))")
+			// lengths, capacities and offsets of slice values are non-negative ints
+			e.assertRange("(and (<= 0 " + t + ") (<= " + t + " 9223372036854775807))")
 		}
 	}
 }
@@ -500,6 +520,13 @@ func (e *Enc) refLoc(ref string, el types.Type) *Loc {
 			_ = u
 			// pointer to array: whole-array location is the backing itself; handled by IndexAddr/Slice
 			return &Loc{Kind: 'A', Key: typeStr(u.Elem()), Ref: ref, T: el}
+		}
+	}
+	// plain cells of named basic types share the heap of their underlying type, so that a pointer conversion such as
+	// (*hexutil.Uint64)(&x) with x uint64 denotes the same cell
+	if _, opq := e.TI.opaqueSort(el); !opq {
+		if b, ok := el.Underlying().(*types.Basic); ok {
+			return &Loc{Kind: 'P', Key: typeStr(b), Ref: ref, T: el}
 		}
 	}
 	return &Loc{Kind: 'P', Key: typeStr(el), Ref: ref, T: el}
